@@ -57,6 +57,7 @@ func (h *holder) release() {
 	// If we currently are acquired, release the token. Otherwise, we are either
 	// blocked or already released.
 	if atomic.SwapInt64(&h.status, released) == acquired {
+		vh("release.swapped", h)
 		<-h.l.ch
 	}
 }
@@ -66,6 +67,7 @@ func (h *holder) block(f func()) {
 	// If we are currently acquired, temporarily release the token. Otherwise,
 	// we are either blocked or released.
 	if atomic.CompareAndSwapInt64(&h.status, acquired, blocked) {
+		vh("block.cas", h)
 		<-h.l.ch
 
 		// Before returning from f() we must reacquire.
@@ -74,6 +76,7 @@ func (h *holder) block(f func()) {
 			// (and that release used our token we gave up), and should no longer try to
 			// re-acquire.
 			if atomic.CompareAndSwapInt64(&h.status, blocked, acquired) {
+				vh("unblock.cas", h)
 				h.l.ch <- struct{}{}
 			}
 		}()
@@ -96,6 +99,7 @@ func Acquire(ctx context.Context) (context.Context, ReleaseFunc) {
 		return ctx, func() {}
 	}
 
+	vh("acquire.try", l)
 	select {
 	case l.ch <- struct{}{}:
 	case <-ctx.Done():
@@ -107,6 +111,7 @@ func Acquire(ctx context.Context) (context.Context, ReleaseFunc) {
 		status: acquired,
 	}
 	ctx = context.WithValue(ctx, holderKey{}, h)
+	vh("acquire.got", l, h)
 
 	return ctx, h.release
 }
